@@ -14,10 +14,15 @@ namespace Ari.Conc
 open Ari
 
 /-- **C16 on the server model: one queue, FIFO, nothing lost, duplicated or reordered.** Written ++ held by the
-    writer ++ queued is exactly the sequence of lines enqueued, and what is on the wire is a prefix of it. -/
+    writer ++ queued is exactly the sequence of lines enqueued as long as no write has failed; what is on the wire is always
+    a prefix of what was enqueued; and a failed write (`wpc = .failed`) loses at most the one message the writer held: the
+    log is written ++ lost ++ held ++ queued with `lost` of length at most 1, empty if no write failed. -/
 theorem c16s_data_fifo {n : Nat} {u p : Option String} {s : DState} {log : List String}
-    (h : GReachL n u p s log) : gpending s = log ∧ s.written <+: log :=
-  ⟨greach_pending h, greach_written_prefix h⟩
+    (h : GReachL n u p s log) :
+    (s.wpc ≠ .failed → gpending s = log) ∧ s.written <+: log ∧
+    ∃ lost : List String, lost.length ≤ 1 ∧ (s.wpc ≠ .failed → lost = []) ∧
+      log = s.written ++ lost ++ gholding s ++ s.sendQ.filterMap id :=
+  ⟨greach_pending h, greach_written_prefix h, greach_pending_lost h⟩
 
 /-- **C16 on the server model: an item's lines keep their order on the way to the wire.** The per-item
     outbound sequence — replies, library end-of-snapshots and listener events in the order the item machine
@@ -31,7 +36,7 @@ theorem c16s_item_order {n : Nat} {u p : Option String} {s : DState} {log : List
 theorem c16s_item_written {n : Nat} {u p : Option String} {s : DState} {log : List String}
     (h : GReachL n u p s log) (hq : s.sendQ = []) (hw : s.wpc = .get) (item : String) :
     (getItem s item).out.Sublist s.written := by
-  have := greach_pending h
+  have := greach_pending h (by rw [hw]; simp)
   have hs := greach_item_sublist h item
   rw [← this] at hs
   simpa [gpending, gholding, hq, hw] using hs
